@@ -38,7 +38,8 @@ func (r *readOnlyFile) Stat() (hackpadfs.FileInfo, error) {
 }
 
 func (r *readOnlyFile) Truncate(size int64) error {
-	return r.file.Truncate(size)
+	// a read-only handle must not change the contents. os.File fails with EINVAL too
+	return &hackpadfs.PathError{Op: "truncate", Path: r.file.path, Err: hackpadfs.ErrInvalid}
 }
 
 func (r *readOnlyFile) ReadDir(n int) ([]hackpadfs.DirEntry, error) {
